@@ -140,6 +140,9 @@ func (i *IPv4) UnmarshalBinary(data []byte) error {
 	copy(i.NWDst, data[n:n+4])
 	n += 4
 
+	if i.IHL < 5 || int(i.IHL)*4 > len(data) {
+		return errors.New("The IPv4 header length is smaller than 5 words or larger than the data.")
+	}
 	err := i.Options.UnmarshalBinary(data[n:int(i.IHL*4)])
 	if err != nil {
 		return err
